@@ -126,3 +126,53 @@ Proof.
   split; [apply find_gaps_complete|]. intros Hm g Hg. apply find_gaps_bounded; assumption.
 Qed.
 Print Assumptions C09_webseed_gaps_characterised.
+
+(* a range handed to a web seed from the gaps consists of pieces that are neither done nor being written
+   nor reserved for another web seed *)
+Theorem C09_webseed_range_is_open : forall s b e s1, find_gaps s <> [] -> ws_check s (Some (b, e)) = Some s1 ->
+  s1 = s /\ 0 <= b /\ b < e /\ e <= npieces s /\
+  forall i, b <= i < e -> open_ (get_piece (base s) i) = true /\ get_owner s i = None.
+Proof. exact gap_range_is_open. Qed.
+Print Assumptions C09_webseed_range_is_open.
+
+(* a web seed that steals from another takes the upper half of what the victim has left: the victim
+   keeps the piece it is working on, both ranges are non-empty, the stolen pieces are free *)
+Theorem C09_webseed_steal_splits_the_victim : forall s b e s1, WInv s -> find_gaps s = [] -> ws_check s (Some (b, e)) = Some s1 ->
+  exists k d, 0 <= k < zlen (srcs s) /\ get_src s k = Some d /\ b = steal_begin d /\ e = d_end d /\
+              d_cur d < b /\ b < e /\
+              get_src s1 k = Some {| d_begin := d_begin d; d_end := b; d_cur := d_cur d |} /\
+              (forall j, b <= j < e -> get_owner s1 j = None).
+Proof. exact webseed_steal_splits. Qed.
+Print Assumptions C09_webseed_steal_splits_the_victim.
+
+(* a peer that steals a piece from a web seed: the piece leaves the web seed's range, which now ends
+   there; the web seed keeps everything up to and including the piece it is working on *)
+Theorem C09_peer_steal_truncates_the_range : forall s pe i af s', WInv s -> downloading_ws s = true -> gap_cands s pe = [] ->
+  wpick_check s pe (Some (i, af)) = Some s' ->
+  exists k d, 0 <= k < zlen (srcs s) /\ get_src s k = Some d /\ d_cur d < i < d_end d /\
+              get_src s' k = Some {| d_begin := d_begin d; d_end := i; d_cur := d_cur d |} /\
+              get_owner s' i = None.
+Proof. exact peer_steal_releases. Qed.
+Print Assumptions C09_peer_steal_truncates_the_range.
+
+(* ---- the stalled-download marks (PickerMarks.v) ---- *)
+From RainV Require Import PickerMarks.
+(* every history: a peer in the Choked or Snubbed set of a piece is downloading that piece (both sets are
+   subsets of Requested), a peer marked Choked is choking us and its download is not an allowed-fast one,
+   no peer is in both sets, and the assertion "peer snubbed while choked" cannot fire *)
+Theorem C09_stalled_marks_consistent : forall ps seq md ops s,
+  Forall (fun p => p_req p = [] /\ p_snub p = [] /\ p_chok p = []) ps ->
+  run_ops (init_picker ps seq md) ops = Some s ->
+  MInv s /\
+  (forall i pe, 0 <= i -> In pe (CH s i) \/ In pe (SN s i) -> In pe (R s i)) /\
+  (forall pe, pstep s (OSnub pe) <> None).
+Proof. exact reachable_marks. Qed.
+Print Assumptions C09_stalled_marks_consistent.
+
+(* the same for every history of the web-seed model (picks in web-seed mode, steals, stop-ats included) *)
+From RainV Require Import PickerWsMarks.
+Theorem C09_stalled_marks_consistent_with_webseeds : forall ps seq md nsrc mws ops s,
+  Forall (fun p => p_req p = [] /\ p_having p = [] /\ p_snub p = [] /\ p_chok p = []) ps ->
+  run_wops (init_ws ps seq md nsrc mws) ops = Some s -> MInv (base s).
+Proof. exact reachable_marks_ws. Qed.
+Print Assumptions C09_stalled_marks_consistent_with_webseeds.
